@@ -414,6 +414,12 @@ impl<'c> Runner<'c> {
 						mark(if p.is_poisoned() { 22 } else { 23 })
 					}
 				}
+				Step::ClearPoison(c) => {
+					if let Some(p) = self.top_poisonable(*c) {
+						p.clear_poison();
+						vraw::sample_poison();
+					}
+				}
 			}
 		}
 	}
@@ -555,6 +561,10 @@ impl<'c> Runner<'c> {
 		}
 	}
 
+	pub fn run_stmt(&mut self, s: &Stmt) -> Result<(), ()> {
+		self.stmt(s)
+	}
+
 	fn stmt(&mut self, s: &Stmt) -> Result<(), ()> {
 		match s {
 			Stmt::Ses(ses) => return self.session(ses),
@@ -611,6 +621,7 @@ impl<'c> Runner<'c> {
 			Stmt::ClearPoison(c) => match self.top_poisonable(*c) {
 				Some(p) => {
 					p.clear_poison();
+					vraw::sample_poison();
 					mark(10)
 				}
 				None => mark(14),
